@@ -21,15 +21,17 @@ type (
 	}
 	StrExpr struct {
 		Pos
-		V string
+		V   string
+		Raw string // literal spelling (e.g. a long bracket spanning lines); "" = quoted rendering of V
 	}
 	VarargExpr struct{ Pos }
 	FuncExpr   struct {
 		Pos
-		Params   []string
-		IsVararg bool
-		Body     *Block
-		Name     string // for diagnostics only
+		Params    []string
+		IsVararg  bool
+		Body      *Block
+		Name      string // for diagnostics only
+		ParenLine int    // line of the `(` opening the parameter list (set by the printer)
 		// computed by Resolve
 		UsesVararg bool // body mentions `...` directly (then no compat `arg` table)
 	}
@@ -202,17 +204,17 @@ func (s *LabelStat) stat() *StatPos     { return &s.StatPos }
 
 // ---- construction helpers (used by generators) -------------------------------------------------
 
-func Num(v float64) *NumExpr             { return &NumExpr{V: v} }
+func Num(v float64) *NumExpr              { return &NumExpr{V: v} }
 func NumLit(v float64, s string) *NumExpr { return &NumExpr{V: v, Lit: s} }
-func Str(s string) *StrExpr              { return &StrExpr{V: s} }
-func Name(n string) *NameExpr            { return &NameExpr{Name: n} }
-func Nil() *NilExpr                      { return &NilExpr{} }
-func True() *TrueExpr                    { return &TrueExpr{} }
-func False() *FalseExpr                  { return &FalseExpr{} }
-func Vararg() *VarargExpr                { return &VarargExpr{} }
-func Paren(e Expr) *ParenExpr            { return &ParenExpr{E: e} }
-func Bin(op string, l, r Expr) *BinExpr  { return &BinExpr{Op: op, L: l, R: r} }
-func Un(op string, e Expr) *UnExpr       { return &UnExpr{Op: op, E: e} }
+func Str(s string) *StrExpr               { return &StrExpr{V: s} }
+func Name(n string) *NameExpr             { return &NameExpr{Name: n} }
+func Nil() *NilExpr                       { return &NilExpr{} }
+func True() *TrueExpr                     { return &TrueExpr{} }
+func False() *FalseExpr                   { return &FalseExpr{} }
+func Vararg() *VarargExpr                 { return &VarargExpr{} }
+func Paren(e Expr) *ParenExpr             { return &ParenExpr{E: e} }
+func Bin(op string, l, r Expr) *BinExpr   { return &BinExpr{Op: op, L: l, R: r} }
+func Un(op string, e Expr) *UnExpr        { return &UnExpr{Op: op, E: e} }
 func Call(f Expr, args ...Expr) *CallExpr { return &CallExpr{Fn: f, Args: args} }
 func CallN(f string, args ...Expr) *CallExpr {
 	return &CallExpr{Fn: Name(f), Args: args}
@@ -220,12 +222,12 @@ func CallN(f string, args ...Expr) *CallExpr {
 func Method(o Expr, name string, args ...Expr) *MethodExpr {
 	return &MethodExpr{Obj: o, Name: name, Args: args}
 }
-func Index(o, k Expr) *IndexExpr      { return &IndexExpr{Obj: o, Key: k} }
+func Index(o, k Expr) *IndexExpr { return &IndexExpr{Obj: o, Key: k} }
 func Dot(o Expr, name string) *IndexExpr {
 	return &IndexExpr{Obj: o, Key: Str(name), Dot: true}
 }
 func TableE(fields ...Field) *TableExpr { return &TableExpr{Fields: fields} }
-func Pos1(v Expr) Field               { return Field{Val: v} }
+func Pos1(v Expr) Field                 { return Field{Val: v} }
 func NamedField(n string, v Expr) Field {
 	return Field{Key: Str(n), NameKey: true, Val: v}
 }
@@ -250,7 +252,7 @@ func CallS(f Expr, args ...Expr) *CallStat {
 	return &CallStat{Call: &CallExpr{Fn: f, Args: args}}
 }
 func Emit(args ...Expr) *CallStat { return CallS(Name("emit"), args...) }
-func Do(stats ...Stat) *DoStat   { return &DoStat{Body: Blk(stats...)} }
+func Do(stats ...Stat) *DoStat    { return &DoStat{Body: Blk(stats...)} }
 func While(c Expr, body ...Stat) *WhileStat {
 	return &WhileStat{Cond: c, Body: Blk(body...)}
 }
@@ -268,9 +270,9 @@ func GenFor(names []string, exprs []Expr, body ...Stat) *GenForStat {
 	return &GenForStat{Names: names, Exprs: exprs, Body: Blk(body...)}
 }
 func Return(exprs ...Expr) *ReturnStat { return &ReturnStat{Exprs: exprs} }
-func Break() *BreakStat               { return &BreakStat{} }
-func Goto(l string) *GotoStat         { return &GotoStat{Label: l} }
-func Label(l string) *LabelStat       { return &LabelStat{Name: l} }
+func Break() *BreakStat                { return &BreakStat{} }
+func Goto(l string) *GotoStat          { return &GotoStat{Label: l} }
+func Label(l string) *LabelStat        { return &LabelStat{Name: l} }
 func LocalFunc(name string, f *FuncExpr) *LocalFuncStat {
 	f.Name = name
 	return &LocalFuncStat{Name: name, Func: f}
